@@ -50,9 +50,36 @@ SCRIPTS = {
     'copy-move': [b'COPY 1 INBOX', b'UID MOVE 102 INBOX', b'UID STORE 103 +FLAGS (\\Deleted)',
                   b'UID EXPUNGE 103'],
     'append-plain': [APPEND_0, b'UID STORE 105 FLAGS ()', APPEND_F, b'EXPUNGE'],
+    # X -> Y -> X: a flag combination the idler itself stored (silently) before IDLE is
+    # changed away and then restored by another session
+    'restore': [b'UID STORE 101 -FLAGS (\\Flagged)', b'UID STORE 101 +FLAGS (\\Flagged)',
+                b'UID STORE 102 FLAGS (\\Seen)', b'UID STORE 102 FLAGS (\\Draft)'],
+    # a session with a stale view addresses a message that was expunged meanwhile
+    'stale-store': [b'UID STORE 102 +FLAGS (\\Deleted)', b'EXPUNGE',
+                    b'UID STORE 102 +FLAGS (\\Flagged)', b'UID FETCH 102 (BODY[])'],
+    'stale-store2': [b'UID STORE 103 +FLAGS (\\Deleted)', b'EXPUNGE',
+                     b'STORE 3 -FLAGS (\\Flagged)', b'UID STORE 103 FLAGS ()'],
     'toggle': [b'UID STORE 103 +FLAGS (\\Flagged)', b'UID STORE 103 -FLAGS (\\Flagged)',
                b'UID STORE 104 +FLAGS (\\Answered)', APPEND_0],
 }
+
+# what an idler did itself before IDLE
+PRE = {
+    None: [],
+    'silent': [b'UID STORE 101 +FLAGS.SILENT (\\Flagged)', b'UID STORE 102 FLAGS.SILENT (\\Draft)'],
+    'mixed': [b'UID STORE 103 -FLAGS (\\Flagged)', b'UID FETCH 104 (FLAGS)',
+              b'UID STORE 104 +FLAGS.SILENT (\\Deleted)', b'EXPUNGE',
+              b'STORE 1 +FLAGS.SILENT (\\Answered)'],
+}
+
+
+def cfg_parts(cfg):
+    """(gated, writers, script, commands[, idler history[, writer of each command]])"""
+    gated, n_writers, script_name, total = cfg[:4]
+    pre = cfg[4] if len(cfg) > 4 else None
+    assign = cfg[5] if len(cfg) > 5 else None
+    return gated, n_writers, script_name, total, pre, assign
+
 
 LINES = [(b'DONE\r\n', True), (b'done\r\n', True), (b'DONE\n', True), (b'WHAT\r\n', False),
          (b'\r\n', False), (b'DONE \r\n', False), (b' DONE\r\n', False), (b'DONE x\r\n', False),
@@ -78,10 +105,10 @@ def enc_action(a) -> str:
 async def play(ctx, cfg, schedule, line_idx: int):
     """run one schedule; returns (record, options_at_end) -- options = the
     actions that could come next (for the exploration)"""
-    gated, n_writers, script_name, total = cfg
+    gated, n_writers, script_name, total, pre, assign = cfg_parts(cfg)
     script = SCRIPTS[script_name][:total]
     env = await DictEnv().start()
-    r = IdleRun(env, gated, n_writers)
+    r = IdleRun(env, gated, n_writers, PRE[pre])
     o0 = await r.start()
     used = 0
     steps = []
@@ -111,8 +138,12 @@ async def play(ctx, cfg, schedule, line_idx: int):
     options = []
     if used < len(script):
         for b in range(1, len(script) - used + 1):
-            for w in range(n_writers):
-                options.append(('w', w, b))
+            if assign is None:
+                for w in range(n_writers):
+                    options.append(('w', w, b))
+            elif len(set(assign[used:used + b])) == 1:
+                # this command belongs to one particular session (e.g. the stale one)
+                options.append(('w', assign[used], b))
     for s, ph in enumerate(last_obs['phase']):
         if ph == 1:
             options.append(('rel', s))
@@ -205,6 +236,11 @@ def configs(ctx):
         ((False,), 1, 'noop-stores', 4),
         ((True,), 1, 'copy-move', 2),
         ((True,), 1, 'append-plain', 2),
+        ((False,), 1, 'restore', 2, 'silent'),
+        ((True,), 1, 'restore', 4, 'silent', (0, 0, 0, 0)),
+        ((True,), 1, 'store-store', 2, 'mixed'),
+        ((True,), 2, 'stale-store', 4, None, (0, 0, 1, 1)),
+        ((True,), 2, 'stale-store2', 4, 'silent', (0, 0, 1, 1)),
     ]
     if ctx.quick:
         return quick
@@ -220,6 +256,11 @@ def configs(ctx):
         ((True,), 1, 'noop-stores', 4),
         ((True,), 1, 'copy-move', 4),
         ((True, False), 1, 'append-plain', 4),
+        ((True, False), 1, 'restore', 4, 'silent'),
+        ((True,), 2, 'restore', 4, 'mixed'),
+        ((True, True), 2, 'stale-store', 3, None, (0, 0, 1)),
+        ((True,), 2, 'stale-store', 4),
+        ((True,), 2, 'delete-expunge', 4, 'mixed'),
     ]
 
 
@@ -240,7 +281,7 @@ def section_dict(ctx, recheck: bool) -> None:
     cases, descr, stats = [], [], []
     with batch_recorder():
         for cfg in configs(ctx):
-            runs, n_exec, truncated = explore(ctx, cfg, ctx.scale(400, 4000))
+            runs, n_exec, truncated = explore(ctx, cfg, ctx.scale(400, 2000))
             stats.append({'cfg': repr(cfg), 'schedules': len(runs), 'executions': n_exec,
                           'all_placements': not truncated})
             for j, (schedule, rec) in enumerate(runs):
@@ -386,7 +427,8 @@ def run(ctx) -> None:
 def replay(ctx, data) -> int:
     if data.get('section') == 'dict':
         cfg = data['cfg']
-        cfg = (tuple(cfg[0]), cfg[1], cfg[2], cfg[3])
+        cfg = (tuple(cfg[0]), cfg[1], cfg[2], cfg[3]) + tuple(
+            tuple(x) if isinstance(x, list) else x for x in cfg[4:])
         schedule = tuple(tuple(a) for a in data['schedule'])
         with batch_recorder():
             rec, _, _ = arun(play(ctx, cfg, schedule, 0), timeout=60)
